@@ -57,14 +57,9 @@ MATCHERS = {FID: lambda dev: dev.get("_known", False)}
 
 
 # ----------------------------------------------------------------------------- replay of a state graph
-def tree_edge(g, banned, u, step):
-    parent, _ = g.bfs_tree(banned)
-    return g.path_to(parent, u)[step]
-
-
 def classify_replay(g, banned, devs, crashes, fnd, unknown, part):
     """returns the set of known-deviating edges that lie on tree paths (to be banned in the next round)"""
-    seen = set()
+    seen = {}
     on_path = set()
     parent = g.bfs_tree(banned)[0]
     for rec in devs + crashes:
@@ -78,15 +73,17 @@ def classify_replay(g, banned, devs, crashes, fnd, unknown, part):
         else:
             u, k = w["u"], w["k"]
         key = (w["cfg"], u, k, crash)
-        if key in seen:
+        if key in seen:  # the same transition seen again (as a step of a tree path, or re-run after a crash)
+            if seen[key] and w["phase"] == "path":
+                on_path.add((u, k))
             continue
-        seen.add(key)
         act, to = g.out[u][k]
         case = {"op": act["op"], "s": act.get("s", []), "pre_k": g.obs[u]["k_set"], "pre_b": g.obs[u]["blockers_set"],
                 "post_exp_k": g.obs[to]["k_set"], "got_k": rec.get("got_k"), "got_b": rec.get("got_b"),
                 "crash_signal": rec.get("signal") if crash else None, "cfg": w["cfg"]}
         d = dict(rec)
         d["_known"] = is_known(case)
+        seen[key] = d["_known"]
         if fnd.match(PROP, d, MATCHERS) is None:
             d.pop("_known")
             unknown.append({"part": part, "pre_state": {"k_set": g.obs[u]["k_set"], "blockers_set": g.obs[u]["blockers_set"]},
@@ -103,7 +100,7 @@ def replay_graph(ev, part, g, bins, nv, heavy, fnd, unknown, shards=2, max_edges
     rnd = random.Random(vf.seed())
     total = {}
     nb = 0
-    for rnd_i in range(4):
+    for rnd_i in range(8):
         shutil.rmtree(work, ignore_errors=True)
         summ, devs, crashes, nb = vf.replay(g, bins, work, env=env, shards=shards, banned=frozenset(banned),
                                             max_edges_per_state=max_edges_per_state, rnd=rnd)
